@@ -95,7 +95,7 @@ def build_unit(u, wdir):
         try:
             out, info = inj.inject(text, spec_s,
                                    preamble_inc=pre if os.path.exists(pre) else None,
-                                   trailer_inc=har if (si == 0) else None)
+                                   trailer_inc=har if (si == 0) else None, repo=REPO)
         except inj.InjectError as e:
             raise Undecided('spec out of date for %s: %s' % (sfile, e))
         info['source'] = sfile
@@ -293,8 +293,9 @@ def run_unit(u, keep=False, jobs=4):
             def hard(pn):
                 return any(k in pn for k in ('.postcondition', '.precondition', 'loop_invariant', 'loop_step', '.assertion.',
                                              'division', 'overflow', 'loop_decreases')) and not pn.startswith('__CPROVER')
-            if os.environ.get('VG_ONLY'):
-                names = [n for n in names if re.search(os.environ['VG_ONLY'], n)]
+            only_re = os.environ.get('VG_ONLY') or u.get('only')
+            if only_re:
+                names = [n for n in names if re.search(only_re, n)]
             easy = [n for n in names if not hard(n)]
             todo = [n for n in names if hard(n)]
             if easy:
@@ -311,7 +312,11 @@ def run_unit(u, keep=False, jobs=4):
                     todo += [n for n in easy if n not in got]
             def one(pn):
                 r = None; mm = ''; d = 0
-                for route, tmo in portfolio:
+                pf = portfolio
+                for pat, hint in (u.get('hints') or {}).items():
+                    if re.search(pat, pn):
+                        pf = hint + [x for x in portfolio if x not in hint]
+                for route, tmo in pf:
                     r, mm, d = run_cbmc(u, b['binary'], [pn], tmo, route)
                     if r is not None and any(x.get('property') == pn and x.get('status') in ('SUCCESS', 'FAILURE') for x in r):
                         for x in r:
